@@ -86,8 +86,12 @@ def generate(R, tier, focus):
         x = R.random()
         actor = R.randint(0, 1)
         if x < 0.22:
-            ops.append({'op': 'SCALE', 'v': R.choice((1, 1.0, 2, 0.5, 0.1, 3.25, 10, 0.0, 1e-3, float(repr(R.uniform(0.01, 5))))),
-                        'actor': actor})
+            v = R.choice((1, 1.0, 2, 0.5, 0.1, 3.25, 10, 0.0, 1e-3, float(repr(R.uniform(0.01, 5)))))
+            if R.random() < 0.15:
+                # the documented third kind of factor: an ndarray (one value per magnitude bin, or per bin)
+                v = {'array': [float(R.choice((0.5, 1.0, 2.0, 0.25))) for _ in range(nm)]} if R.random() < 0.6 else \
+                    {'array': [[float(R.choice((0.5, 1.0, 2.0))) for _ in range(nm)] for _ in cells]}
+            ops.append({'op': 'SCALE', 'v': v, 'actor': actor})
         elif x < 0.36:
             where = R.choice(('before', 'start', 'inside', 'inside', 'inside', 'end', 'after'))
             if where == 'before':
@@ -288,7 +292,8 @@ def _execute(scn, ctx, store, clock, rng):
                 not numpy.allclose(d, e):
             sig = 'rates-assigned-to-wrong-bins'
         ctx.violate('C11', 'scale_history' if oi >= 0 else 'load', '%s:%s' % (label, sig),
-                    {'op': oi, 'factor_expected': factor['alts'], 'got_sum': float(d.sum()),
+                    {'op': oi, 'factor_expected': [x if numpy.ndim(x) == 0 else 'ndarray' for x in factor['alts']],
+                     'got_sum': float(d.sum()),
                      'want_sum': float(numpy.array(e).sum())})
         return False
 
@@ -310,11 +315,14 @@ def _execute(scn, ctx, store, clock, rng):
         kind = op['op']
         ctx.count('op:' + kind)
         if kind == 'SCALE':
-            r = call(fc.scale, op['v'])
+            v_ = numpy.array(op['v']['array'], dtype=float) if isinstance(op['v'], dict) else op['v']
+            if isinstance(op['v'], dict):
+                ctx.count('rare:ndarray_scale_factor')
+            r = call(fc.scale, v_)
             if r[0] != 'ok':
                 ctx.violate('C11', 'exception', 'SCALE:%s' % r[1], {'op': oi, 'msg': r[2]})
                 return
-            factor['alts'] = [op['v']]
+            factor['alts'] = [v_]
         elif kind == 'SCALE_TO_DATE':
             t = build.utc(op['t_ms']) if scn.get('aware') else build.utc(op['t_ms']).replace(tzinfo=None)
             r = call(fc.scale_to_test_date, t)
@@ -375,7 +383,11 @@ def _execute(scn, ctx, store, clock, rng):
             # (whether the first object was affected is decided by check_data below)
         elif kind == 'READ':
             d = numpy.array(fc.data)
-            tot = float(fc.sum())
+            tot_raw = fc.sum()
+            if numpy.ndim(tot_raw) != 0 or numpy.ndim(fc.event_count) != 0:
+                ctx.violate('C11', 'marginals', 'total-is-not-a-single-number', {'op': oi, 'shape': list(numpy.shape(tot_raw))})
+                return
+            tot = float(tot_raw)
             sc = numpy.array(fc.spatial_counts())
             mc = numpy.array(fc.magnitude_counts())
             ctx.log('read', oi, tot)
@@ -422,13 +434,15 @@ def _execute(scn, ctx, store, clock, rng):
                                 {'op': oi, 'lon': lon, 'lat': lat, 'mag': mag, 'msg': r[2]})
                     continue
                 want = None
+                ci_ = p['cell']
                 for f in factor['alts']:
-                    if hexf(float(r[1][0])) == hexf(float(c['rates'][mb] * f)):
-                        want = f
+                    if hexf(float(r[1][0])) == hexf(float(numpy.array(expected(f))[ci_, mb])):
+                        want = True
                 if want is None:
                     ctx.violate('C11', 'lookup', 'wrong-rate:%s:%s' % (w, p.get('mwhere', 'interior')),
                                 {'op': oi, 'lon': lon, 'lat': lat, 'mag': mag, 'got': float(r[1][0]),
-                                 'want': c['rates'][mb] * factor['alts'][0], 'cell': [c.get('lon0'), c.get('lat0'), c.get('qk')]})
+                                 'want': float(numpy.array(expected(factor['alts'][0]))[ci_, mb]),
+                                 'cell': [c.get('lon0'), c.get('lat0'), c.get('qk')]})
         elif kind == 'LOOKUP_OUTSIDE':
             reg = scn['region']
             dh = reg['dh']
@@ -463,7 +477,7 @@ def _execute(scn, ctx, store, clock, rng):
                     break
                 lon, lat, mag, mb = _point(scn, fc, dict(e, where='interior', mwhere='interior'), cell_index_of)
                 evs.append(['t%d' % k, scn['start_ms'] + 1000 * (k + 1), lat, lon, 5.0, mag])
-                want_rates.append(cells[e['cell']]['rates'][mb])
+                want_rates.append((e['cell'], mb))
             if not ok_cells:
                 continue
             cat = build.make_catalog(evs, region=fc.region, name='tc')
@@ -478,7 +492,8 @@ def _execute(scn, ctx, store, clock, rng):
                 div = days if op['scale'] else 1
                 okv = False
                 for f in factor['alts']:
-                    w = numpy.array(want_rates) * f / div
+                    ex_ = numpy.array(expected(f))
+                    w = numpy.array([ex_[ci2, mb2] for ci2, mb2 in want_rates], dtype=float) / div
                     if numpy.allclose(numpy.array(rates_t, dtype=float), w, rtol=1e-12, atol=0) and \
                             models.close(float(n_f), float((base * f).sum()) / div, 1e-12, 0):
                         okv = True
